@@ -28,7 +28,6 @@ TRUST_PATTERNS = [
     ("assume", re.compile(r"(?<![A-Za-z0-9_])assume\s*\(([^;]*)\)\s*;")),
     ("admit", re.compile(r"(?<![A-Za-z0-9_])admit\s*\(\s*\)")),
     ("uninterp", re.compile(r"uninterp\s+spec\s+fn\s+([A-Za-z0-9_]+)")),
-    ("trait_contract", re.compile(r"pub trait (ByteSrc|ByteSink)")),
 ]
 
 
@@ -45,6 +44,12 @@ def scan_trusted(text):
         for m in pat.finditer(t):
             arg = m.group(1).strip() if m.groups() else ""
             found.append("%s: %s" % (kind, " ".join(arg.split())[:120]))
+    # traits whose methods carry contracts: assumed for every type parameter bounded by them (and checked for every
+    # implementation inside the unit)
+    for m in re.finditer(r"pub trait (\w+)[^{;]*\{", t):
+        end = t.find("\n}", m.end())
+        if end > 0 and "ensures" in t[m.end():end]:
+            found.append("trait_contract: %s (assumed of type parameters bounded by it)" % m.group(1))
     return sorted(set(found))
 
 
